@@ -8,6 +8,7 @@ import (
 	"runtime"
 	"strings"
 	"sync"
+	"sync/atomic"
 	"testing"
 	"time"
 
@@ -319,6 +320,103 @@ func TestMeta(t *testing.T) {
 		if sampled < 3 && idx%7 == 3 {
 			sampled++
 			l.Sample = map[string]any{"case": c, "log": log, "result": counts}
+		}
+		out.End(l)
+	}
+}
+
+// concurrentMeta: streams with growing shard ids are opened and closed concurrently with
+// ordinary streams on one server; afterwards every counter must be back to zero.
+func concurrentMeta(mode string, rounds int, seed int64) (viol []rec.Violation, counts map[string]int64, inconclusive string) {
+	counts = map[string]int64{}
+	rng := rand.New(rand.NewSource(seed))
+	for r := 0; r < rounds; r++ {
+		probe := fakes.NewProbe(1)
+		observer := proxy.NewReplicationStreamObserver(probe)
+		src := &fakeAdmin{window: 4, shardCount: 4}
+		life, lifeCancel := context.WithCancel(context.Background())
+		scc := config.ShardCountConfig{}
+		lcm := proxy.LCMParameters{}
+		if mode == "lcm" {
+			scc = config.ShardCountConfig{Mode: config.ShardCountLCM, LocalShardCount: 4, RemoteShardCount: 6}
+			lcm = proxy.LCMParameters{LCM: 12, TargetShardCount: 4}
+		}
+		h := proxy.NewAdminServiceProxyServer("inboundAdminService", src, nil, proxy.AdminServiceOverrides{}, []string{"inbound"}, observer.ReportStreamValue, scc, lcm, proxy.RoutingParameters{}, probe, nil, life)
+		src.onOpen = func(o *openRec) {
+			// the fake source ends each stream shortly after it was opened
+			d := time.Duration(50+(len(o.md.Get(mdKeys[3])[0])*37+r*13)%300) * time.Microsecond
+			go func() { time.Sleep(d); o.cs.Finish(nil) }()
+		}
+		ids := []int{1, 2, 3, 4, 5, 6, 7, 8}
+		grow := []int{1024, 1100, 2000, 5000, 20000, 100000, 1 << 20, 1 << 21}
+		var wg sync.WaitGroup
+		stuck := atomic.Int64{}
+		run := func(id int) {
+			defer wg.Done()
+			md := goodMD()
+			md[mdKeys[3]] = fmt.Sprint(id)
+			var pairs []string
+			for _, k := range mdKeys {
+				pairs = append(pairs, k, md[k])
+			}
+			ictx, icancel := context.WithCancel(metadata.NewIncomingContext(context.Background(), metadata.Pairs(pairs...)))
+			defer icancel()
+			ss := fakes.NewServerSide(ictx, 4)
+			done := make(chan error, 1)
+			go func() { done <- h.StreamWorkflowReplicationMessages(ss) }()
+			select {
+			case <-done:
+			case <-time.After(20 * time.Second):
+				stuck.Add(1)
+			}
+		}
+		for k := 0; k < 3; k++ {
+			for _, id := range ids {
+				wg.Add(1)
+				go run(id)
+			}
+		}
+		for _, id := range grow {
+			wg.Add(1)
+			go run(id + rng.Intn(50))
+		}
+		wg.Wait()
+		lifeCancel()
+		counts["concurrent_streams"] += int64(3*len(ids) + len(grow))
+		if stuck.Load() > 0 {
+			if g := stuckInObserver(); g != "" {
+				viol = append(viol, rec.Violation{Prop: "C20", Sig: "wedged:concurrent-stream-parked-in-observer", What: "a stream handler is parked in the stream observer during concurrent opens:\n" + firstLines(g, 12)})
+			} else {
+				inconclusive = "a concurrent stream did not finish within 20 s (no observer wedge visible)"
+			}
+			return
+		}
+		if active := observer.PrintActiveStreams(); active != "[]" {
+			viol = append(viol, rec.Violation{Prop: "C20", Sig: "observer-counters-not-conserved:concurrent", What: fmt.Sprintf("round %d (%s mode): after %d concurrently opened and closed streams (8 of them with shard ids that grow the observer's table) the observer still reports active streams %s", r, mode, 3*len(ids)+len(grow), active)})
+			return
+		}
+		counts["concurrent_rounds_conserved"]++
+	}
+	return
+}
+
+func TestMetaConcurrent(t *testing.T) {
+	out := rec.Default()
+	rounds := 60
+	if rec.Thorough() {
+		rounds = 1500
+	}
+	i, _ := rec.Shard()
+	for _, mode := range []string{"default", "lcm"} {
+		name := fmt.Sprintf("concurrent/%s/%d", mode, i)
+		if rec.Only() != "" && rec.Only() != name {
+			continue
+		}
+		out.Begin(name, map[string]any{"mode": mode, "rounds": rounds})
+		viol, counts, inc := concurrentMeta(mode, rounds, rec.Mix(rec.Seed(), name))
+		l := rec.Line{Case: name, Viol: viol, Counts: counts, Class: name}
+		if inc != "" && len(viol) == 0 {
+			l.Verdict, l.Why = rec.Inconclusive, inc
 		}
 		out.End(l)
 	}
